@@ -481,7 +481,10 @@ class MessageAccumulator:
                 continue
             leader = self._cluster.leader_for_partition(tp)
             if leader is None or leader == -1:
-                if self._batches[tp][0].expired():
+                # With idempotence batches are never expired (see Sender's
+                # `_can_retry`): popping one would consume its sequence
+                # numbers without sending it and leave a sequence gap.
+                if self._txn_manager is None and self._batches[tp][0].expired():
                     # batch is for partition is expired and still no leader,
                     # so set exception for batch and pop it
                     batch = self._pop_batch(tp)
